@@ -209,6 +209,11 @@ def run(ctx):
                            f"x = {T.show(x)[:80]}, log_q = {T.show(lq)[:80]} do not come from the same draw", disc=str(n_pairs))
     ctx.floor("(x, log_q) constructor pairs", n_pairs, 3)
 
+    # ------------------------------------------------------------ the proposal a resumed run evaluates is the one the stored log_q came from
+    from ..report import reuse
+    from . import c14
+    reuse(ctx, c14.run, ("C14.flow",), "C10file", "stale-flow rule shared with C14: after a resume log_q is recomputed with the flow stored in the file")
+
     # ------------------------------------------------------------ who may write x
     bad = []
     for f in repo.all_functions():
